@@ -11,11 +11,11 @@ GEV_NOTE = ('trusted base: the shadow numpy interpreter of vlib/evgen.py (self-t
 
 CHECKS = {
  'C01': dict(level='exploration',
-   text='Held on N random typed expression DAGs (about 45 operator kinds incl. loops, scatter/gather, diagonals, powers, FEM-assembly composites, bool/int/float/complex, shared subterms) plus all operator pairs (thorough: triples): the real simplifier is run under a rewrite-step counter with a logical budget (wall clock only nominates, a line clock confirms) and its result, compiled with no further pass, is compared with an independent numpy shadow of the generating recipe at k in-domain argument assignments; thorough additionally re-evaluates sampled single rewrite steps on both sides. Exploration by sampling is the right level: the property quantifies over an unbounded program space and only executions can refute it; termination is restated as bounded progress.',
+   text='Held on N random typed expression DAGs (about 45 operator kinds incl. loops, scatter/gather, diagonals, powers, FEM-assembly composites, bool/int/float/complex, shared subterms) plus all operator pairs (thorough: triples), Op(balanced sums of arrays scattered by shared index maps) also under a loop sum, and sibling pairs f(K1(x), K2(y)): the real simplifier is run under a rewrite-step counter (5e4 steps nominate, a second run with 1e6 steps convicts; wall clock only nominates, a line clock confirms) and its result, compiled with no further pass, is compared with an independent numpy shadow of the generating recipe at k in-domain argument assignments; thorough additionally re-evaluates sampled single rewrite steps on both sides. Exploration by sampling is the right level: the property quantifies over an unbounded program space and only executions can refute it; termination is restated as bounded progress.',
    note=GEV_NOTE + '; a line-budget overrun without cycle evidence is an unresolved suspect (counted, never a verdict); one open ledger mechanism (Diagonalize/Inflate rewrite cycle) is recognised by its call-site signature',
    technique='reference-model monitor (shadow numpy interpreter) + rewrite-step counter / line clock (logical budgets) + per-step rewrite monitor + rule-firing coverage counters', ref='DESIGN.md §3 C01, §7'),
  'C02': dict(level='exploration',
-   text='Held on N random programs (tuples of expressions with nested/adjacent/fusable loops, shared subterms, scatter chains) each compiled and run under up to 11 compile configurations (_simplify x _optimize x cache_const_intermediates x stats x maxprocs x nutils evalf assertions), every output compared in structure, shape, dtype kind and value with the numpy shadow; loop-free intermediates of the raw compile are compared too through the NUTILS_VERIF observer hook; generated scripts are captured and the code shapes exercised (in-place add, add.at, loops, locks, first_run) are reported and required.',
+   text='Held on N random programs (tuples of expressions with nested/adjacent/fusable loops, shared subterms, scatter chains) each compiled and run under up to 12 compile configurations (_simplify x _optimize x cache_const_intermediates x stats x maxprocs x nutils evalf assertions, and a cached function whose first calls failed for lack of an argument), every output compared in structure, shape, dtype kind and value with the numpy shadow; loop-free intermediates of the raw compile are compared too through the NUTILS_VERIF observer hook; generated scripts are captured and the code shapes exercised (in-place add, add.at, loops, locks, first_run) are reported and required.',
    note=GEV_NOTE + '; programs whose simplification does not terminate are C01 events and skipped; maxprocs>1 only for programs with an outer loop, sampled',
    technique='differential translation monitoring: compiled function vs shadow interpreter across the configuration matrix + observer hook on intermediates + script capture', ref='DESIGN.md §3 C02'),
  'C03': dict(level='exploration',
@@ -23,14 +23,14 @@ CHECKS = {
    note=GEV_NOTE + '; returned arrays that share memory with a caller-owned argument are not poisoned',
    technique='history monitor against an executable model (fresh compile + shadow) + argument sanitizer (read-only / snapshots) + result poisoning', ref='DESIGN.md §3 C03'),
  'C04': dict(level='exploration',
-   text='Held on N (expression, argument) pairs: the real evaluable.derivative is evaluated raw and through the default pipeline and compared with the Jacobian of the numpy shadow obtained by 6th-order central differences at two step sizes that must agree; stencils that leave the domain or cross a kink (branch trace of the shadow) are skipped and counted; shape = expr.shape+arg.shape and identically zero derivatives of int/bool expressions are asserted; thorough adds second derivatives as derivatives of the verified first derivative.',
+   text='Held on N (expression, argument) pairs: the real evaluable.derivative is evaluated raw and through the default pipeline and compared with the Jacobian of the numpy shadow obtained by 6th-order central differences at two step sizes that must agree; stencils that leave the domain or cross a kink (branch trace of the shadow) are skipped and counted; shape = expr.shape+arg.shape and identically zero derivatives of int/bool expressions are asserted; thorough adds second derivatives as derivatives of the verified first derivative; a function.Custom family checks user-defined operations against the numerical Jacobian of their numpy meaning.',
    note='reference = finite differences of the shadow (independent of nutils evaluation); pass 1e-6 / violation 1e-4 relative; one open ledger mechanism (determinant derivative NaN at singular matrices); function.derivative plumbing is covered by C13',
    technique='numerical-Jacobian oracle on an independent shadow interpreter, with kink/domain tracing', ref='DESIGN.md §3 C04'),
  'C05': dict(level='exploration',
    text='Held on N programs with a sparsity profile plus FEM integrals on small meshes: the tuples returned by the real assparse / as_csr / function.as_coo / as_csr are checked against a contract (indices in range, strictly lexicographic, CSR pointer monotone with right ends, strictly increasing columns, dtype, 0-d form), scattering them must reproduce the dense shadow value (or dense evaluation for FEM integrals), the un-merged chunk form must add up to the same array, and matrix.assemble_csr must accept the CSR data.',
    note=GEV_NOTE, technique='contract monitor on the returned COO/CSR tuples + dense reference model', ref='DESIGN.md §3 C05'),
  'C06': dict(level='exploration',
-   text='Held on N integer-heavy and general programs: for every array that materialises in generated code (observer hook, every loop iteration, raw and default pipelines, nutils evalf assertions on) and for every distinct sub-node of the raw/simplified/optimised DAG evaluated stand-alone with loop indices bound, the announced ndim, shape (constant or computed), dtype and inferred integer range are compared with the evaluated value of that same node; outputs are re-evaluated with exactly the announced arguments and with the others perturbed.',
+   text='Held on a systematic integer-pair family (9 binary integer operations x 10 x 10 operand archetypes with tight ranges) and N integer-heavy and general programs: for every array that materialises in generated code (observer hook, every loop iteration, raw and default pipelines, nutils evalf assertions on) and for every distinct sub-node of the raw/simplified/optimised DAG evaluated stand-alone with loop indices bound, the announced ndim, shape (constant or computed), dtype and inferred integer range are compared with the evaluated value of that same node; outputs are re-evaluated with exactly the announced arguments and with the others perturbed.',
    note='self-consistency monitor: the oracle is the announced metadata itself; integer ranges are checked on sampled values, half of them at the extremes of their declared ranges',
    technique='invariant at a hook (NUTILS_VERIF observer in generated code) + stand-alone node walk + argument-dependence experiments', ref='DESIGN.md §3 C06'),
  'C11': dict(level='exploration',
